@@ -147,6 +147,11 @@ def run(ctx):
     evals += nv
     for key, what, h in vbad:
         ctx.violation(key, what, {'kind': 'validator'})
+    (nr, rbad), = ctx.pmap(_reward_bound_worker, [0, 1])[:1]
+    evals += nr
+    ctx.cov['reward_bound_offers_on_ledger_states'] = nr
+    for key, what in rbad:
+        ctx.violation(key, what, {'kind': 'reward-context'})
     na, abad = validator_amount_limits()
     evals += na
     for key, what in abad:
@@ -240,6 +245,28 @@ def validator_boundaries():
     return n, bad
 
 
+def _reward_bound_worker(_):
+    """the reward bound in context: on a few real ledger states (incl. a chain crossing two halvings under the interval seam)
+    every reward / fee candidate of the C02 alphabet - sequences included - is offered to full validation; a block whose
+    reward exceeds subsidy(height) + its own fees must never be accepted"""
+    from . import c01, c02
+    from .. import blockcheck, ledger
+    ledger.setup()
+    out = []
+    n = 0
+    for kind in ('easy', 'easy-halving3'):
+        uni = c02.universe_for(kind)
+        hists = [(('f',), ('f', 's')), (('f',), ('f', 's'), ('f', 's', 'a')), (('f',), ('f', 's'), ('f', 's', 'e'), ('f', 's', 'e', 'e'))]
+        st, bad, hs = blockcheck.run_histories(c02.cfg(), uni, [h for h in hists if all(uni.get(p) is not None for p in h)],
+                                               c01.now_for('easy'))
+        n += st.get('transitions', 0)
+        for key, what, hist, ppath, cname in bad:
+            if 'reward_too_large' in what or key == 'conservation':
+                out.append(('validator-reward-bound', what + " [%s universe]" % kind))
+    c02.universe_for('easy')
+    return n, out[:4]
+
+
 def validator_amount_limits():
     """the maximum supply is the upper limit the validator places on ANY amount: every output list of length 1..4 over a
     boundary alphabet (and a few longer ones) is offered to the stand-alone transaction validator; it must be accepted
@@ -328,6 +355,8 @@ def replay(data, ctx):
     elif data['kind'] == 'validator':
         nv, vbad = validator_boundaries()
         out += [(k, w) for k, w, h in vbad]
+    elif data['kind'] == 'reward-context':
+        out += _reward_bound_worker(0)[1]
     elif data['kind'] == 'amounts':
         na, abad = validator_amount_limits()
         out += abad
